@@ -3,6 +3,7 @@ C11 property theorems. Only statements of the property + non-vacuity examples li
 in Lemmas.lean (parsers, core-only) and Algebra.lean (abstract-group algebra, Mathlib).
 -/
 import BV.C11.Lemmas
+import BV.C11.Algebra
 import BV.Generated.C11
 namespace BV.C11
 open BV.Secp256k1
@@ -12,6 +13,88 @@ open BV.Secp256k1
 /-- The lax (BER) ECDSA parser accepts everything the strict parser accepts, with the same (r, s). -/
 theorem lax_accepts_strict (sig : List UInt8) (v : Nat × Nat) (h : parseSig sig true = some v) :
     parseSig sig false = some v := Lemmas.parseSig_lax_of_strict sig v h
+
+/-! ### algebra over an abstract prime-order group
+
+`G` is any `Module (ZMod n) G`; `g` generates a subgroup of order n (`a • g = 0 → a = 0`); `Coord` packages
+an abstract x coordinate, y parity and lift_x with their coherence laws; hashes are arbitrary functions.
+All laws are hypotheses / type-class assumptions. -/
+
+section algebra
+open BV.C11.Algebra
+variable {n : ℕ} {G : Type} [AddCommGroup G] [Module (ZMod n) G] {F M : Type}
+
+/-- ECDSA: every (r, s) produced by the signing equation `s = k⁻¹(z + r·d)`, `r = x(k·g) mod n`, with
+    k ≠ 0 and r, s ≠ 0 (the signer retries otherwise) satisfies the verification equation under P = d·g —
+    for every private key, message and nonce. -/
+theorem ecdsa_sign_verifies [Fact n.Prime] (xr : G → ZMod n) (g : G) (hg : ∀ a : ZMod n, a • g = 0 → a = 0)
+    (d k z r s : ZMod n) (hk : k ≠ 0) (hr : r = xr (k • g)) (hs : s = k⁻¹ * (z + r * d))
+    (hr0 : r ≠ 0) (hs0 : s ≠ 0) : ecdsaValid xr g (d • g) z r s :=
+  Algebra.ecdsa_sign_verifies xr g hg d k z r s hk hr hs hr0 hs0
+
+/-- BIP340: every signature produced by the signer (with both negation rules: d negated when P has odd y,
+    k negated when R has odd y) verifies — for every key d' ≠ 0, message and nonce k' ≠ 0. -/
+theorem schnorr_sign_verifies (c : Coord G F) (H : F → F → M → ZMod n) (g : G)
+    (hg : ∀ a : ZMod n, a • g = 0 → a = 0) (d' k' : ZMod n) (hd : d' ≠ 0) (hk : k' ≠ 0) (m : M) :
+    schnorrVerify c H g (c.x (d' • g)) m (c.x (k' • g))
+      (c.sign (k' • g) * k' + H (c.x (k' • g)) (c.x (d' • g)) m * (c.sign (d' • g) * d')) :=
+  Algebra.schnorr_sign_verifies c H g hg d' k' hd hk m
+
+/-- BIP340 soundness: the verifier (lift_x, R = s·g − e·P, R ≠ ∞, even y, x(R) = r) accepts only triples
+    that satisfy the defining equation. -/
+theorem schnorr_verify_sound (c : Coord G F) (H : F → F → M → ZMod n) (g : G) (pk : F) (m : M) (r : F)
+    (s : ZMod n) (h : schnorrVerify c H g pk m r s) :
+    ∃ P R, c.liftX pk = some P ∧ R ≠ 0 ∧ c.evenY R ∧ c.x R = r ∧ s • g = R + (H r pk m) • P :=
+  Algebra.schnorr_verify_sound c H g pk m r s h
+
+/-- BIP340 completeness: every triple satisfying the defining equation is accepted. -/
+theorem schnorr_verify_complete (c : Coord G F) (H : F → F → M → ZMod n) (g : G) (pk : F) (m : M) (r : F)
+    (s : ZMod n) (P R : G) (hP : c.liftX pk = some P) (h0 : R ≠ 0) (he : c.evenY R) (hx : c.x R = r)
+    (heq : s • g = R + (H r pk m) • P) : schnorrVerify c H g pk m r s :=
+  Algebra.schnorr_verify_complete c H g pk m r s P R hP h0 he hx heq
+
+/-- BIP327 tweak accumulator invariant for any chain of plain / x-only tweaks: Q = gacc·Q₀ + tacc·g. -/
+theorem musig2_tweak_invariant (c : Coord G F) (g Q0 : G) (tws : List (ZMod n × Bool)) :
+    (applyTweaks c g ⟨Q0, 1, 0⟩ tws).Q =
+      (applyTweaks c g ⟨Q0, 1, 0⟩ tws).gacc • Q0 + (applyTweaks c g (⟨Q0, 1, 0⟩ : TweakCtx n G) tws).tacc • g :=
+  Algebra.applyTweaks_inv c g Q0 tws ⟨Q0, 1, 0⟩ (by simp)
+
+/-- MuSig2: for any signer list (duplicates, any order), any key-aggregation coefficient function (in
+    particular BIP327's with the second-key rule), any tweak chain, any nonce coefficient and message: the
+    sum of the honest partial signatures plus e·gQ·tacc verifies as a BIP340 signature under the tweaked
+    aggregate key (aggregate key and final nonce not at infinity). -/
+theorem musig2_combined_verifies (c : Coord G F) (H : F → F → M → ZMod n) (g : G) (a : G → ZMod n)
+    (l : List (Signer n)) (tws : List (ZMod n × Bool)) (b : ZMod n) (m : M)
+    (hQ : (applyTweaks c g ⟨keyAgg g a l, 1, 0⟩ tws).Q ≠ 0)
+    (hR : nonceAgg1 g l + b • nonceAgg2 g l ≠ 0) :
+    let ctx := applyTweaks c g ⟨keyAgg g a l, 1, 0⟩ tws
+    let R := nonceAgg1 g l + b • nonceAgg2 g l
+    let e := H (c.x R) (c.x ctx.Q) m
+    let gR : ZMod n := c.sign R
+    let gQ : ZMod n := c.sign ctx.Q
+    schnorrVerify c H g (c.x ctx.Q) m (c.x R)
+      ((l.map (fun s => partialSig gR gQ ctx.gacc b e (a (s.d • g)) s)).sum + e * gQ * ctx.tacc) :=
+  Algebra.musig2_combined_verifies c H g a l tws b m hQ hR
+
+/-- partial signature verification accepts exactly the BIP327 partial signature of an honest signer. -/
+theorem partial_verify_iff (g : G) (hg : ∀ a : ZMod n, a • g = 0 → a = 0) (gR gQ gacc b e ai : ZMod n)
+    (sg : Signer n) (s : ZMod n) :
+    partialVerify g gR gQ gacc b e ai (sg.k1 • g) (sg.k2 • g) (sg.d • g) s ↔
+      s = partialSig gR gQ gacc b e ai sg :=
+  Algebra.partial_verify_iff g hg gR gQ gacc b e ai sg s
+
+/-- ECDH: both parties derive the same point (hence the same x coordinate). -/
+theorem ecdh_symmetric (g : G) (a b : ZMod n) : a • (b • g) = b • (a • g) := Algebra.ecdh_symmetric g a b
+
+end algebra
+
+/-- the hypotheses are satisfiable: ZMod 7 acting on itself, generator 1, x(P) = P², "even" = residue ≤ 3,
+    lift_x by search. -/
+example : ∃ (c : Algebra.Coord (ZMod 7) (ZMod 7)), (∀ a : ZMod 7, a • (1 : ZMod 7) = 0 → a = 0) ∧
+    c.liftX (c.x 3) = some 3 :=
+  ⟨{ x := fun P => P * P, evenY := fun P => P.val ≤ 3,
+     liftX := fun f => ([1, 2, 3] : List (ZMod 7)).find? (fun P => P * P == f),
+     x_neg := by decide, even_neg := by decide, lift_spec := by decide }, by decide, by decide⟩
 
 /-! ### pinned constants (regenerated from the compiled tree on every run) -/
 
